@@ -41,6 +41,11 @@ func c09Family() []*Term {
 		b(1, &Term{K: "break"}),
 		{K: "for", Cond: &Cond{Lt: 2}, Post: inc(0), A: &Term{K: "combine", A: br(&Val{Dyn: true}, &Term{K: "continue"}), B: b(77, n())}},
 		{K: "combine", A: &Term{K: "for", Cond: &Cond{Lt: 2, Inc: true}, A: b(3, n())}, B: &Term{K: "retval", Val: &Val{Dyn: true, Const: 1}}},
+		// generator code that reads its own iterator's Current() while being advanced
+		{K: "delay", S: &Script{Op: "self"}, A: &Term{K: "bind", Val: &Val{Const: 4}, S: &Script{Op: "self"}, A: &Term{K: "bind", Val: &Val{Const: 5}, S: &Script{Op: "self"}, A: n()}}},
+		{K: "for", Cond: &Cond{Lt: 3, Inc: true}, Post: &Script{Op: "self"}, A: br(&Val{Dyn: true, Const: 2}, &Term{K: "delay", S: &Script{Op: "self"}, A: n()})},
+		// a thunk that panics after values were delivered (Current after the recovered panic)
+		b(1, b(2, &Term{K: "delay", S: &Script{Op: "panic"}, A: b(3, n())})),
 	}
 	for _, f := range fam {
 		number(f)
